@@ -187,3 +187,6 @@ def r6(run, db):
 Q = ["dflt", "rc"]
 TH = ["dflt", "rc", "atr", "astd", "ws"]
 RULES = [{"id": "C02.R%d" % i, "fn": f, "quick": Q, "thorough": TH} for i, f in enumerate([r1, r2, r3, r4, r5, r6, r7], 1)]
+from .etype import witness_rule
+RULES.append({"id": "C02.W", "fn": witness_rule(['W3TypedSend', 'W7SendConsumes']), "quick": [], "thorough": [], "no_db": True})
+DOC["C02.W"] = 'E-TYPE witnesses W3 (typed send rejects a foreign message type, E0308) and W7 (the send consumes the message, E0382), each with a compiling twin'
